@@ -37,6 +37,15 @@ func convOps(r rng, tier string) (ops []string, want []string) {
 			add(fmt.Sprintf("zstr\t%s\t%d", hx([]byte(s)), w), hx([]byte(icl.VerifStringField(s, uint(w)))))
 		}
 	}
+	// fills far longer than any fixed column (the variable sections - image data, keys, signatures - are filled to the
+	// length their length column announces, up to 9,999,999 for an image): the converters fill up to the documented
+	// growth bound (1e8), not to some smaller one
+	for _, w := range []int{1 << 16, 1 << 20, 1<<20 + 1, 1<<20 + 4097, 2500000} {
+		add(fmt.Sprintf("alpha\t%s\t%d", hx([]byte("Ab")), w), hx([]byte(icl.VerifAlphaField("Ab", uint(w)))))
+		add(fmt.Sprintf("nbsm\t%s\t%d", hx([]byte("Ab")), w), hx([]byte(icl.VerifNBSMField("Ab", uint(w)))))
+		add(fmt.Sprintf("zstr\t%s\t%d", hx([]byte("12")), w), hx([]byte(icl.VerifStringField("12", uint(w)))))
+		add(fmt.Sprintf("numeric\t%d\t%d", 7, w), hx([]byte(icl.VerifNumericField(7, uint(w)))))
+	}
 	ints := []int{0, 1, -1, 9, 10, 99, 100, -10, -99, 12345, math.MaxInt64, math.MinInt64, math.MaxInt32, 1e15, -1e15}
 	for k := 0; k < 18; k++ {
 		p := 1
@@ -279,6 +288,11 @@ func renderCases(r rng, tier string) []renderCase {
 				hs := hostileFor(w, r)
 				if lenFields[w.Src] {
 					hs = append(hs, lenFieldHostile()...)
+				}
+				if w.Src == "LengthImageData" {
+					// an image announced more than a mebibyte longer than the data present: the section is filled to the
+					// announced length (the growth bound of the converters is 1e8)
+					hs = append(hs, FV{K: 'S', S: []byte("1048700")}, FV{K: 'S', S: []byte("2100000")})
 				}
 				for _, h := range hs {
 					vals := map[string]FV{}
